@@ -36,51 +36,51 @@ let rec nat_of_int (i : int) : nat = if i <= 0 then O else S (nat_of_int (i - 1)
 
 (* program wire format: instructions separated by ';', each `<op>/<cont>`;
    op: fa:<hex> | ld | sc:<hex> | sr:<hex> ; cont: n | r | riu | ru | g<decimal pc> ; '-' = empty program *)
-let parse_instr (s : string) : instr =
+let parse_instr (s : string) : fi_instr =
   match String.split_on_char '/' s with
   | [o; k] ->
     let op =
-      if o = "ld" then ALoad else
+      if o = "ld" then FiLoad else
       match String.split_on_char ':' o with
-      | ["fa"; d] -> AFetchAdd (n_of_hexnum d)
-      | ["sc"; v] -> AStoreConst (n_of_hexnum v)
-      | ["sr"; d] -> AStoreRegPlus (n_of_hexnum d)
+      | ["fa"; d] -> FiFetchAdd (n_of_hexnum d)
+      | ["sc"; v] -> FiStoreConst (n_of_hexnum v)
+      | ["sr"; d] -> FiStoreRegPlus (n_of_hexnum d)
       | _ -> failwith "op" in
     let ct =
       match k with
-      | "n" -> KNext | "r" -> KRet | "riu" -> KRetIfUntagged | "ru" -> KRetUnit
+      | "n" -> FiKNext | "r" -> FiKRet | "riu" -> FiKRetIfUntagged | "ru" -> FiKRetUnit
       | _ when String.length k > 1 && k.[0] = 'g' ->
-        KGoto (nat_of_int (int_of_string (String.sub k 1 (String.length k - 1))))
+        FiKGoto (nat_of_int (int_of_string (String.sub k 1 (String.length k - 1))))
       | _ -> failwith "cont" in
-    { i_op = op; i_k = ct }
+    { fi_op = op; fi_k = ct }
   | _ -> failwith "instr"
 
-let parse_program (s : string) : instr list =
+let parse_program (s : string) : fi_instr list =
   if s = "-" then [] else List.map parse_instr (String.split_on_char ';' s)
 
-let parse_todos (s : string) : call list list =
+let parse_todos (s : string) : fi_call list list =
   List.map (fun t ->
     if t = "-" then [] else
-    List.init (String.length t) (fun i -> if t.[i] = 'n' then CallNew else CallReset))
+    List.init (String.length t) (fun i -> if t.[i] = 'n' then FiCallNew else FiCallReset))
     (String.split_on_char ',' s)
 
-let show_ids (s : state) : string =
+let show_ids (s : fi_state) : string =
   String.concat "/" (List.map (fun t ->
-    match List.rev t.t_ids with
+    match List.rev t.fi_t_ids with
     | [] -> "-"
-    | l -> String.concat "." (List.map hexnum_of_n l)) s.s_threads)
+    | l -> String.concat "." (List.map hexnum_of_n l)) s.fi_s_threads)
 
 (* `<prog_new> <prog_reset> <start> <todos> <sched>` *)
 let fileid_sched (line : string) : string =
   match String.split_on_char ' ' line with
   | [pn; pr; start; todos; sched] ->
-    let p = { p_new = parse_program pn; p_reset = parse_program pr } in
+    let p = { fi_p_new = parse_program pn; fi_p_reset = parse_program pr } in
     let todos = parse_todos todos in
     let nthreads = List.length todos in
     let sched = if sched = "-" then [] else
       List.filter (fun i -> i < nthreads) (List.map int_of_string (String.split_on_char ',' sched)) in
-    let s = run p (init_state (n_of_hexnum start) todos) (List.map nat_of_int sched) in
-    Printf.sprintf "ids=%s cell=%s done=%d" (show_ids s) (hexnum_of_n s.s_cell) (if finished s then 1 else 0)
+    let s = fi_run p (fi_init_state (n_of_hexnum start) todos) (List.map nat_of_int sched) in
+    Printf.sprintf "ids=%s cell=%s done=%d" (show_ids s) (hexnum_of_n s.fi_s_cell) (if fi_finished s then 1 else 0)
   | _ -> failwith "fileid_sched line"
 
 (* `<prog_new> <prog_reset> <start> <threads> <calls>`: the model's answer under the sequential schedule
@@ -89,15 +89,15 @@ let fileid_sched (line : string) : string =
 let fileid_free (line : string) : string =
   match String.split_on_char ' ' line with
   | [pn; pr; start; threads; calls] ->
-    let p = { p_new = parse_program pn; p_reset = parse_program pr } in
+    let p = { fi_p_new = parse_program pn; fi_p_reset = parse_program pr } in
     let t = int_of_string threads and k = int_of_string calls in
-    let todos = List.init t (fun _ -> List.init k (fun _ -> CallNew)) in
+    let todos = List.init t (fun _ -> List.init k (fun _ -> FiCallNew)) in
     let sched = List.concat (List.init t (fun i -> List.init (3 * k + 3) (fun _ -> nat_of_int i))) in
-    let s = run p (init_state (n_of_hexnum start) todos) sched in
-    let ids = all_ids s in
+    let s = fi_run p (fi_init_state (n_of_hexnum start) todos) sched in
+    let ids = fi_all_ids s in
     let pad h = String.make (16 - String.length h) '0' ^ h in
     let hs = List.sort compare (List.map (fun x -> pad (hexnum_of_n x)) ids) in
-    let inrange = List.for_all id_ok ids in
+    let inrange = List.for_all fi_id_ok ids in
     let rec distinct = function a :: (b :: _ as r) -> a <> b && distinct r | _ -> true in
     let start_n = n_of_hexnum start in
     let rec contiguous cur = function
@@ -113,8 +113,8 @@ let fileid_free (line : string) : string =
 let fileid_search (line : string) : string =
   match String.split_on_char ' ' line with
   | [pn; pr; start; todos; fuel] ->
-    let p = { p_new = parse_program pn; p_reset = parse_program pr } in
-    (match search_from (nat_of_int (int_of_string fuel)) p (n_of_hexnum start) (parse_todos todos) with
+    let p = { fi_p_new = parse_program pn; fi_p_reset = parse_program pr } in
+    (match fi_search_from (nat_of_int (int_of_string fuel)) p (n_of_hexnum start) (parse_todos todos) with
      | None -> "none"
      | Some l ->
        let rec int_of_nat = function O -> 0 | S m -> 1 + int_of_nat m in
